@@ -26,11 +26,30 @@ class Case:
 
 def _run_shard(args):
     binp, backend, seed, text, mode = args
-    p = subprocess.run([binp, mode, backend], input=text, capture_output=True, text=True,
-                       env=dict(ENV, VERIF_SEED=str(seed), TSS_SERVER_BIN=os.environ.get("TSS_SERVER_BIN", "")), timeout=3000)
-    if p.returncode != 0:
-        return None, f"harness exit {p.returncode}: {p.stderr[-2000:]}"
-    impl = p.stdout
+    pr = subprocess.Popen([binp, mode, backend], stdin=subprocess.PIPE, stdout=subprocess.PIPE, stderr=subprocess.PIPE, text=True,
+                          env=dict(ENV, VERIF_SEED=str(seed), TSS_SERVER_BIN=os.environ.get("TSS_SERVER_BIN", "")))
+    try:
+        so, se = pr.communicate(text, timeout=int(os.environ.get("TSS_SHARD_TIMEOUT", "300")))
+        if pr.returncode != 0:
+            return None, f"harness exit {pr.returncode}: {se[-2000:]}"
+        impl = so
+    except subprocess.TimeoutExpired:
+        # the implementation stopped answering (a request that never returns): what was produced so
+        # far is kept, the operation that hangs is reported as an observation of the case it belongs to
+        pr.kill()
+        so, se = pr.communicate()
+        lines = so.split("\n")
+        while lines and not lines[-1].startswith(("OP ", "R ", "# ")):
+            lines.pop()
+        last = lines[-1] if lines else ""
+        if last.startswith("OP "):
+            lines.append("R HANG")
+        given = [l for l in text.split("\n") if l and not l.startswith(("case ", "end"))]
+        ops_seen = [l for l in lines if l.startswith("OP ")]
+        k = len(ops_seen)
+        nxt = given[k] if last.startswith("R ") and k < len(given) else (ops_seen[-1][3:] if ops_seen else "start")
+        lines += ["OP mark harness-hang " + ("in_" if last.startswith("OP ") else "around_") + nxt[:70].replace(" ", "_"), "R mark"]
+        impl = "\n".join(lines) + "\n"
     ops = []
     for line in impl.split("\n"):
         if line.startswith("OP "):
